@@ -31,7 +31,7 @@ T_CacheInsert == IsEvent("CacheInsert") /\ CacheInsert(E.len, E.dir) /\ NoIter
 T_Build       == IsEvent("Build") /\ Build(E.kind, E.len, E.dir, E.scr) /\ NoIter
 T_PlanEnd     == IsEvent("PlanEnd") /\ PlanEnd(E.pid, E.iid, E.outcome, E.len, E.rdir, E.scr) /\ NoIter
 T_PlanReport  == IsEvent("PlanReport") /\ PlanReport(E.pid, E.n, E.dir, E.outcome, E.tree) /\ NoIter
-T_Construct   == IsEvent("Construct") /\ Construct(E.iid, E.elem, E.outcome, E.n, E.dir, E.len, E.rdir, E.scr) /\ NoIter
+T_Construct   == IsEvent("Construct") /\ Construct(E.iid, E.elem, E.outcome, E.n, E.dir, E.len, E.rdir, E.scr, E.tree) /\ NoIter
 T_ElemReport  == IsEvent("ElemReport") /\ ElemReport(E.elem, E.non_ring, E.tags_ok) /\ NoIter
 T_CallBegin   == IsEvent("CallBegin") /\ CallBegin(E.cid, E.iid, E.entry, E.data, E.out, E.scratch, E.inh) /\ NoIter
 T_CallEnd     == IsEvent("CallEnd") /\ CallEnd(E.cid, E.outcome, E.obs, E.role, E.key, E.outh) /\ NoIter
